@@ -16,6 +16,7 @@ import GridVerif.Props.C15.Unique
 #print axioms GridVerif.C15.deriv_matrix_invertible_iff
 #print axioms GridVerif.C15.explicit_form
 #print axioms GridVerif.C15.initial_data_roundtrip
+#print axioms GridVerif.C15.deriv_matrix_spec
 #print axioms GridVerif.C15.forwardSolve_solves
 #print axioms GridVerif.C15.bvp_bc_spec
 #print axioms GridVerif.C15.bvp_bc_meaning
